@@ -1,6 +1,22 @@
-"""C06 rules (placeholder: fail-closed until the rules are implemented)."""
-from ..loader import AnalysisError
+"""C06 - convergence (necessary chain only): the links without which a successful run cannot leave everything complete.
+
+The fixpoint itself quantifies over run-time mtimes and scheduler histories and is NOT decided here (see DESIGN 4/C06);
+every link below is a necessary condition: breaking it breaks convergence or the perturbation clause.
+"""
+from .shared import import_rules
 
 
 def run(ctx):
-    raise AnalysisError("rules for C06 not implemented yet")
+    l1 = ctx.rule("L1", "each backend's success code maps to COMPLETED/UNKNOWN, live codes stay live (state tables of C08)", min_instances=60)
+    import_rules(ctx, l1, "C08", only={"R1"})
+    l2 = ctx.rule("L2", "a finished or unknown job falls through to the file-based decision; stale or pending-dependency targets are submitted (decision table of C02)")
+    import_rules(ctx, l2, "C02", only={"R1", "R1b"})
+    l3 = ctx.rule("L3", "the staleness test is strict and over all files: outputs written in the same tick as inputs are up to date; a modified source is noticed", min_instances=5)
+    import_rules(ctx, l3, "C01", only={"R1", "R2", "R3", "R4"})
+    l4 = ctx.rule("L4", "an accepted submission is recorded and marked SUBMITTED, so the same run / the next run does not submit it again", min_instances=6)
+    import_rules(ctx, l4, "C08", only={"R2"})
+    l5 = ctx.rule("L5", "the dependency relation is the file relation (normalised paths, order independent), so 'everything downstream' is well defined", min_instances=8)
+    import_rules(ctx, l5, "C03", only={"R1", "R2"})
+    l6 = ctx.rule("L6", "prerequisites delay execution: incomplete dependencies are listed, translated to ids and reach the scheduler", min_instances=10)
+    import_rules(ctx, l6, "C02", only={"R2", "R3", "R5"})
+    import_rules(ctx, l6, "C07", only={"R1", "R3"})
